@@ -1816,11 +1816,12 @@ class VM:
             begin = min(begin, arr.length)
             end = min(end, arr.length)
 
-            # Create new typed array of same type
-            result = type(arr)(max(0, end - begin))
-            for i in range(begin, end):
-                result.set_index(i - begin, arr.get_index(i))
-            return result
+            # A new view of the same type over the same buffer
+            return type(arr)(
+                max(0, end - begin),
+                arr._buffer,
+                arr._byte_offset + begin * arr._element_size,
+            )
 
         def set_fn(*args):
             # TypedArray.set(array, offset)
